@@ -244,20 +244,25 @@ func (h *Handler) saltAuthToken(req *http.Request, remote string) (updatedReq *h
 
 	creds := auth.NewCredentials()
 	creds.LoadTokensFromHTTPRequest(updatedReq)
-	if len(creds.Tokens) == 0 && updatedReq.Header.Get("Content-Type") == "application/x-www-form-urlencoded" {
-		// Override ParseForm's 10MiB limit by ensuring
-		// req.Body is a *http.maxBytesReader.
-		updatedReq.Body = http.MaxBytesReader(nil, updatedReq.Body, 1<<28) // 256MiB. TODO: use MaxRequestSize from discovery doc or config.
-		if err := creds.LoadTokensFromHTTPRequestBody(updatedReq); err != nil {
+	if updatedReq.Header.Get("Content-Type") == "application/x-www-form-urlencoded" && updatedReq.Body != nil {
+		// Look for api_token in the form body even if a token
+		// was found elsewhere, whatever the request method.
+		buf, err := ioutil.ReadAll(http.MaxBytesReader(nil, updatedReq.Body, 1<<28)) // 256MiB. TODO: use MaxRequestSize from discovery doc or config.
+		if err != nil {
 			return nil, err
+		}
+		form, err := url.ParseQuery(string(buf))
+		if err != nil {
+			return nil, err
+		}
+		if t := form.Get("api_token"); t != "" {
+			creds.Tokens = append(creds.Tokens, t)
 		}
 		// Replace req.Body with a buffer that re-encodes the
 		// form without api_token, in case we end up
 		// forwarding the request.
-		if updatedReq.PostForm != nil {
-			updatedReq.PostForm.Del("api_token")
-		}
-		updatedReq.Body = ioutil.NopCloser(bytes.NewBufferString(updatedReq.PostForm.Encode()))
+		form.Del("api_token")
+		updatedReq.Body = ioutil.NopCloser(bytes.NewBufferString(form.Encode()))
 	}
 	if len(creds.Tokens) == 0 {
 		return updatedReq, nil
